@@ -75,12 +75,37 @@ CLAIMED["C08"] = {
     "design_ref": "DESIGN.md §5 C08",
 }
 
+CLAIMED["C04"] = {
+    "text": "Decides the clause 'every instruction argument is read back from a bytecode file exactly as emitted', for all argument strings over the "
+            "character classes the reader distinguishes: the writer CompiledItem::repr(false) is evaluated abstractly to its symbolic per-argument "
+            "output (quote wrap + ordered replace chain), the reader split_string_v2 to its (state x character-class) transition table, and "
+            "read(write(arg)) == [arg] is decided by finite composition over all class singletons, pairs and the empty string (a singleton check "
+            "from the in-argument state is an induction step for all strings). Also: opcode ids are single bytes (<128) and emitted ids differ from the "
+            "record markers (NUL, 'e'); the in-memory path hands (id, arguments) over verbatim; the loader tokenises with split_string_v2(_, true). "
+            "Does not decide NUL inside literals (outside the alphabet) nor that the two paths execute identical instruction streams beyond the codec.",
+    "technique": "static analysis: abstract interpretation of rustc MIR (symbolic string writer, finite-state reader table) + finite composition; constant agreement",
+    "design_ref": "DESIGN.md §5 C04",
+}
+CLAIMED["C18"] = {
+    "text": "Decides the codec clauses of the text round trip: for both writer/reader pairs -- (CompiledItem::repr(true), transpiler line reader + "
+            "split_string) with '\\n' as record separator, and (transpiler Instruction::repr, loader split_string) -- read(write(arg)) == [arg] for "
+            "every character class, pair and the empty string, by abstract evaluation of the writers (including path conditions such as "
+            "arg.contains(' ')) and composition with the reader's transition table; the opcode name array, the id constants and the dispatch switch "
+            "form one bijection with contiguous ids; the transpiler obtains opcodes only through string_instruction_representation_to_byte and carries "
+            "the tokens split_string produced; record templates are '\\t{name}{args}\\n' and '{id}{args}\\0'. Does not decide function-header lines.",
+    "technique": "static analysis: abstract interpretation of rustc MIR (symbolic string writers, finite-state reader table) + finite composition; table agreement",
+    "design_ref": "DESIGN.md §5 C18",
+}
+
 NOT_APPLICABLE = {
     "C01": "observable is program output; mechanism is relative jump offsets computed from Vec::len() arithmetic of recursively compiled blocks - deciding it needs symbolic execution of the generators (a different family); see DESIGN.md §5 C01",
     "C09": "a property of the compiler's *output* for all programs (jump targets, frame balance, operand-stack shape): needs symbolic block lengths or a verifier over emitted bytecode (translation validation), not an analysis of /repo's source; DESIGN.md §5 C09",
     "C12": "meaning depends on run-time nil/present state and on hand-computed jump offsets (jmp_not_nil n, unwrap_into + if): value-level, no structural clause that is both necessary and robust; DESIGN.md §5 C12",
     "C15": "evaluation order / single evaluation is a property of the emitted instruction sequence (value-level sequence reasoning); register reuse is already excluded by Rust ownership; DESIGN.md §5 C15",
 }
+
+# no hook commits exist; the only commits made to /repo are unguarded "fix:" repairs of genuine defects (see known_findings.json)
+FIX_COMMITS = ["e2ae2a9", "cb2d1e0", "e7575e5"]
 
 PENDING = "check not built yet in this round (framework under construction); planned per DESIGN.md §5/§8"
 
@@ -114,8 +139,8 @@ def main():
         "hooks": {
             "guard": "mscript_verif",
             "enable": "no hooks are installed: static analysis reads /repo's working tree as it is (the guard name is reserved, unused)",
-            "baseline_off_cmd": "cd /repo && cargo test --workspace --no-fail-fast --offline",
-            "source_commits": [],
+            "baseline_off_cmd": "cd /repo && cargo nextest run --workspace --no-fail-fast --tool-config-file pb:/w/lib/nextest.toml --profile pb --test-threads 8 --offline",
+            "source_commits": FIX_COMMITS,
             "add_only": True,
         },
         "engines": [
